@@ -106,6 +106,8 @@ func NewProcess(opts ...ProcOpts) *Process {
 func (p *Process) run() int {
 	verif.Yield("run:enter")
 	if p.isState(types.ProcessStateTerminating) {
+		// stopped before it was launched: it is over, say so (state, done flag)
+		p.onProcessEnd(types.ProcessStateCompleted)
 		return 0
 	}
 	verif.Yield("run:checked")
